@@ -1,9 +1,11 @@
 package rt
 
 import (
+	"bytes"
 	"context"
 	"fmt"
 	"net/http"
+	"strings"
 
 	protovalidate "buf.build/go/protovalidate"
 	"google.golang.org/protobuf/proto"
@@ -194,6 +196,50 @@ func c01Unit(j *Job, u *JobUnit) error {
 				})
 				if err != nil {
 					return err
+				}
+				// size family: the first body-carried string (or bytes) member of the request resp. of the response holding 40 KiB,
+				// 1 MiB + 1 and 5 MiB (a cap on what either side buffers must not cut or refuse a legitimate message)
+				inURL := map[string]bool{}
+				for _, v := range m.PathVars {
+					inURL[v] = true
+				}
+				for _, q := range m.Query {
+					inURL[q.Field] = true
+				}
+				bigIn := func(msg proto.Message, skipURL bool, n int) bool {
+					r := msg.ProtoReflect()
+					fds := r.Descriptor().Fields()
+					for i := 0; i < fds.Len(); i++ {
+						fd := fds.Get(i)
+						if fd.IsList() || fd.IsMap() || fd.ContainingOneof() != nil || fieldRulesOf(fd) != nil {
+							continue
+						}
+						if skipURL && inURL[string(fd.Name())] {
+							continue
+						}
+						switch fd.Kind() {
+						case protoreflect.StringKind:
+							r.Set(fd, protoreflect.ValueOfString(strings.Repeat("s", n)))
+							return true
+						case protoreflect.BytesKind:
+							r.Set(fd, protoreflect.ValueOfBytes(bytes.Repeat([]byte{0x5a}, n)))
+							return true
+						}
+					}
+					return false
+				}
+				for _, n := range []int{40 << 10, 1<<20 + 1, 5 << 20} {
+					label := fmt.Sprintf("size_%dKiB", n>>10)
+					if m.HasBody() {
+						big := proto.Clone(baseReq)
+						if bigIn(big, true, n) && !violatesRules(big) {
+							call(cellBase+",ct="+ctKey+ctOpt+",dir=request#"+label, Point{Msg: big, Labels: []string{label}, Deviate: 1}, big, fullOut)
+						}
+					}
+					bigOut := proto.Clone(fullOut)
+					if bigIn(bigOut, false, n) {
+						call(cellBase+",ct="+ctKey+ctOpt+",dir=response#"+label, Point{Msg: bigOut, Labels: []string{label}, Deviate: 1}, baseReq, bigOut)
+					}
 				}
 			}
 		}
